@@ -1,6 +1,8 @@
 import ScrapliModel.Lemmas.Failed
 import ScrapliModel.Lemmas.FailedText
 import ScrapliModel.Lemmas.FailedFault
+import ScrapliModel.Lemmas.FileLines
+import ScrapliModel.Generated.C13FileLines
 import ScrapliModel.Lemmas.GoSem
 import ScrapliModel.Generated.BodiesFailed
 /-!
@@ -529,6 +531,50 @@ theorem answering_device_no_error {σ : Type} (dev : Dev σ) (drv : List Bytes) 
     have hd : (c :: cs).dropLast ++ [(c :: cs).getLast hne] = c :: cs := List.dropLast_concat_getLast hne
     rw [hl]
     simp only [sendLoop_then_last, hd, Multi.empty]
+
+/-! ## the from-file variants: the commands are the lines of the file -/
+
+/-- Obligation on the regenerated source fact (`Generated/C13FileLines.lean`): `util.LoadFileLines`
+reads with a `bufio.Scanner` split by `bufio.ScanLines`, default buffer, appending `scanner.Text()`,
+and by no other reader (`ReadLine`, `ReadString`, … have different line semantics: `ReadLine` hands
+out a long line in pieces). This is what `FileLines.fileLines` models. -/
+theorem loadFileLines_reads_with_scanner :
+    Gen.C13FileLines.found = true ∧ Gen.C13FileLines.usesScanner = true ∧
+    Gen.C13FileLines.splitFunc = "bufio.ScanLines" ∧ Gen.C13FileLines.otherReaders = [] ∧
+    Gen.C13FileLines.setsBuffer = false ∧ Gen.C13FileLines.appendsScannerText = true := by decide
+
+/-- Every list of lines (any number, any bytes but LF, none ending in CR, each shorter than the
+scanner's 65536-byte buffer — 4096, 4097, 6000, 65535 bytes all included) written to a file one per
+line is read back exactly: the commands of a from-file operation are the lines of the file. -/
+theorem file_lines_are_the_commands (ls : List Bytes)
+    (hlf : ∀ l ∈ ls, LF ∉ l) (hcr : ∀ l ∈ ls, l.getLast? ≠ some CR)
+    (hfit : ∀ l ∈ ls, l.length < FileLines.maxTok) :
+    FileLines.fileLines (FileLines.writeLines ls) = ls := by
+  unfold FileLines.fileLines
+  rw [FileLines.rawLines_writeLines ls hlf, FileLines.fitting_all _ _ hfit]
+  induction ls with
+  | nil => rfl
+  | cons l t ih =>
+    simp only [List.map_cons]
+    rw [ih (fun x hx => hlf x (List.mem_cons_of_mem _ hx)) (fun x hx => hcr x (List.mem_cons_of_mem _ hx))
+      (fun x hx => hfit x (List.mem_cons_of_mem _ hx))]
+    have : FileLines.dropCR l = l := by
+      unfold FileLines.dropCR
+      simp [hcr l (by simp)]
+    rw [this]
+
+example : FileLines.fileLines (ofStr "show x\r\n\n  tab\there \nlast") =
+    [ofStr "show x", [], ofStr "  tab\there ", ofStr "last"] := by decide +kernel
+
+/-- What the code does beyond the domain (documented, not demanded): at the first line that does
+not fit the scanner's buffer the reading stops *silently* — that line and every line after it are
+dropped and no error is returned (`LoadFileLines` never consults `scanner.Err()`). -/
+theorem oversized_line_truncates_silently (pre : List Bytes) (l : Bytes) (post : List Bytes)
+    (hlf : ∀ x ∈ pre ++ l :: post, LF ∉ x) (hpre : ∀ x ∈ pre, x.length < FileLines.maxTok)
+    (hl : FileLines.maxTok ≤ l.length) :
+    FileLines.fileLines (FileLines.writeLines (pre ++ l :: post)) = pre.map FileLines.dropCR := by
+  unfold FileLines.fileLines
+  rw [FileLines.rawLines_writeLines _ hlf, FileLines.fitting_stops _ pre l post hpre hl]
 
 /-! ## the collapsed config response -/
 
